@@ -46,7 +46,7 @@ def input_loop(ctx, f, txl):
 
 def expand_locals(f, e, depth=3):
     """Copy of expression e with single-definition locals replaced by their defining expression (bounded depth)."""
-    import copy
+    from ..astcopy import fast_copy
     from .. import dataflow as df
     d = df.defs(f)
 
@@ -59,9 +59,9 @@ def expand_locals(f, e, depth=3):
                 ds = d.get(n.id, [])
                 if len(ds) == 1 and isinstance(ds[0][0], ast.Assign) and len(ds[0][0].targets) == 1 \
                         and isinstance(ds[0][0].targets[0], ast.Name) and ds[0][1] is not None:
-                    return T(self.k - 1).visit(copy.deepcopy(ds[0][1]))
+                    return T(self.k - 1).visit(fast_copy(ds[0][1]))
             return n
-    return T(depth).visit(copy.deepcopy(e))
+    return T(depth).visit(fast_copy(e))
 
 
 def output_loop(ctx, f, txl, txv):
